@@ -348,6 +348,10 @@ def ev_cov(case, rec):
             rec.fail('returned covariance is not positive semi-definite', site='transform:conform7:vcv-psd', observed=w.tolist(),
                      case=one, coords=co)
         rec.outcome('cov-bad' if bad else 'cov-ok')
+        if mi == 0 and all(float(v).is_integer() for v in pt):
+            # whole-metre coordinates in every exact numeric spelling (int32 / unsigned columns of a table), covariance supplied
+            cfg.scalar_forms_agree(rec, lambda x_, y_, z_: conform7(x_, y_, z_, t, np.array(m, dtype=float)), [float(v) for v in pt], [0, 1, 2], r,
+                                   'transform:conform7', one, co, 'conform7 (with covariance)')
         # the same matrix held in other array objects (read-only, Fortran order, strided window, np.matrix, exact dtypes)
         if (mi + len(pt)) % 3 == 0 or mi < 2:
             for nm, vf in cfg.matrix_forms(m):
